@@ -415,7 +415,7 @@ class DOK(SparseArray, NDArrayOperatorsMixin):
                     if start > stop:
                         start = stop
                 else:
-                    start = ind.start or self.shape[i] - 1
+                    start = ind.start if ind.start is not None else self.shape[i] - 1
                     stop = ind.stop if ind.stop is not None else -1
                     start = min(start, self.shape[i] - 1)
                     stop = max(stop, -1)
